@@ -636,6 +636,9 @@ namespace Pistache
                 virtual void reset();
                 State parse();
 
+                // true as long as no byte of the current message has been fed
+                bool atStart() const { return buffer.endptr() == buffer.begptr(); }
+
                 Step* step();
 
             protected:
@@ -662,6 +665,9 @@ namespace Pistache
                 {
                     return time_;
                 }
+
+                // (re)starts the clock the header / body time-outs are measured against
+                void restartTime() { time_ = std::chrono::steady_clock::now(); }
 
                 Request request;
 
